@@ -537,16 +537,17 @@ Inv_C10_Complete == \A j \in JobIds : jobs[j].judged => jobs[j].ok
 ExplainedE1(j) ==
     /\ jobs[j].kind = "c"
     /\ \E k \in JobIds : k # j /\ jobs[k].kind = "s" /\ jobs[k].v.h >= jobs[j].v.h
-\* ... and E2: the accounts goroutines of a snapshot and of a checkpoint requested while the snapshot is still
-\* running race for the request queue; if the checkpoint of the newer root is queued first it is written before the
-\* snapshot has created its DB and without the nodes it shares with the snapshot root (RemoveCommitted has
-\* already unmarked them)
+\* ... and E2: two jobs that run at the same time interfere - the accounts goroutines race for the request queue,
+\* data tries go to whatever snapshot DB is the last one when their entry is processed, TakeSnapshot unmarks the
+\* hashes holder entries a queued checkpoint still needs, and a root already present in the last snapshot DB
+\* (written by an unfinished checkpoint) makes the snapshot skip its work
 Overlap(j, k) == k \in jobs[j].conc \/ j \in jobs[k].conc
-ExplainedE2(j) ==
-    /\ jobs[j].kind = "c"
-    /\ \E k \in JobIds : k # j /\ jobs[k].kind = "s" /\ Overlap(j, k)
+ExplainedE2(j) == \E k \in JobIds : k # j /\ Overlap(j, k)
+\* ... and E3, a consequence: a checkpoint only adds the nodes marked since the last snapshot/checkpoint, so it
+\* is incomplete whenever an earlier job left the snapshot DB incomplete (E1/E2)
+ExplainedE3(j) == jobs[j].kind = "c" /\ \E k \in JobIds : k < j /\ jobs[k].judged /\ ~jobs[k].ok
 Inv_C10_CompleteUnexplained ==
-    \A j \in JobIds : (jobs[j].judged /\ ~jobs[j].ok) => (ExplainedE1(j) \/ ExplainedE2(j))
+    \A j \in JobIds : (jobs[j].judged /\ ~jobs[j].ok) => (ExplainedE1(j) \/ ExplainedE2(j) \/ ExplainedE3(j))
 
 \* C10: while a job is running its source nodes stay in the main DB and pruning is blocked
 Inv_C10_Source == \A j \in JobIds : Active(j) => (jobs[j].v.n \subseteq db /\ blocked > 0)
